@@ -144,14 +144,14 @@ Definition below_root (root p : str) : Prop :=
    (handlefiletransferrequest.c InitFileTransfer / SetFtpRoot / GetHomeDir, rfbtightserver.c
    rfbTightProcessArg, cargs.c: the extension's processArgument hook is called for every argument
    libvncserver itself does not know, with the rest of the command line) *)
-(* [t_rootset]: SetFtpRoot has accepted a directory since the last wipe of ftproot (ghost for the tree; the variable
-   ftprootIsSet of notes/fix_C19_6.diff) *)
+(* [t_rootset]: SetFtpRoot has accepted a directory since the last wipe of ftproot (the variable ftprootIsSet, tree
+   since 2a9083d) *)
 Record tinit := { t_initted : bool; t_enabled : bool; t_root : str; t_rootset : bool }.
 (* static initialisers: fileTransferEnabled = TRUE, fileTransferInitted = FALSE, ftproot = "" *)
 Definition tinit0 : tinit := {| t_initted := false; t_enabled := true; t_root := []; t_rootset := false |}.
 
-(* IsFileTransferEnabled().  [fx] = with notes/fix_C19_6.diff: transfer is on only if a root directory was accepted;
-   false = the tree (F19e): the flag alone *)
+(* IsFileTransferEnabled().  [fx] = true: the tree since fix commit 2a9083d (= notes/fix_C19_6.diff): transfer is on only
+   if a root directory was accepted; false = the flow before it (F19e, regression variant): the flag alone *)
 Definition t_effective (fx : bool) (st : tinit) : bool := t_enabled st && (negb fx || t_rootset st).
 
 (* environment: getpwuid(geteuid())->pw_dir, and whether a path is an openable directory
